@@ -111,15 +111,20 @@ BindMap(d) == [var \in ({<<"O", o>> : o \in DOMAIN d.ob} \cup {<<"A", a>> : a \i
                  IF var[1] = "O" THEN d.ob[var[2]] ELSE ArgVals(d, var[2])]
 AccMaps(C, ast, argv) == {BindMap(d) : d \in Accepting(C, ast, argv)}
 
-\* exclusion (ii): a folded short token carrying "=" after the first letter ("-ab=v")
-IsFoldedEq(t) == Len(t) >= 2 /\ t[1] = Dash /\ t[2] # Dash /\ (\E i \in 4..Len(t) : t[i] = "=") /\ ~(Len(t) >= 3 /\ t[3] = "=")
+\* exclusion (ii): a folded short token carrying "=" after a flag ("-ab=v"): the first "=" stands behind at least two letters of which
+\* all but the last are flags.  (When a valued option comes earlier, the rest of the token - "=" included - is its attached value and
+\* the token is an ordinary occurrence: "-oae=z" is -o with the value ae=z.)
+FirstEq(t) == CHOOSE i \in 3..Len(t) : t[i] = "=" /\ \A j \in 3..(i - 1) : t[j] # "="
+IsFoldedEq(P, t) ==
+  /\ Len(t) >= 2 /\ t[1] = Dash /\ t[2] # Dash /\ (\E i \in 4..Len(t) : t[i] = "=") /\ ~(Len(t) >= 3 /\ t[3] = "=")
+  /\ \A j \in 2..(FirstEq(t) - 2) : ShortOf(P, t[j]) = "none" \/ IsFlag(P, ShortOf(P, t[j]))
 \* exclusion (i): help tokens
 IsHelpTok(t) == t = <<"-", "h">> \/ t = <<"-", "-", "h", "e", "l", "p">>
 
 RECURSIVE BeforeMarker(_)
 BeforeMarker(w) == IF Len(w) = 0 \/ IsDD(w[1]) THEN <<>> ELSE <<w[1]>> \o BeforeMarker(Tail(w))
 
-ShapeUnclaimed(argv) ==
-  \E i \in 1..Len(argv) : IsFoldedEq(argv[i]) \/ IsHelpTok(argv[i])
+ShapeUnclaimed(P, argv) ==
+  \E i \in 1..Len(argv) : IsFoldedEq(P, argv[i]) \/ IsHelpTok(argv[i])
 
 =============================================================================
